@@ -444,6 +444,13 @@ func TestC18Enumerate(t *testing.T) {
 	}
 }
 
+// OnHang: a request that never returns is the worst "error outcome". After a
+// backend failure in an earlier request it means the failure left something
+// (a lock, a slot) behind that later requests wait for.
+func (c *monC18) OnHang(m *Machine, s *Step) *Violation {
+	return violation("C18", "request-never-answered:"+s.Op.K, "%s request did not return within %v (backend call failed in this request: %q); earlier failed requests may have left a lock held", s.Op.K, harness.HangAfter, s.Resp.Fired)
+}
+
 func lastCalls(m *Machine) []string { return append([]string(nil), m.lastCalls...) }
 
 // ---- random histories with random fault placement -----------------------------------------------
